@@ -16,6 +16,16 @@ def run(ctx):
     nsh = vlib.NCPU * 2
     args = [["--depth", depth, "--shard", i, "--nshards", nsh, "--deadline", int(deadline)] for i in range(nsh)]
     res = vlib.run_shards(exe, args, env, timeout=deadline * 1.3 + 120, label="xlife")
+    # the same exploration, one level shallower, in a process configuration whose override names a back end that cannot
+    # run here (ignored by the library: the detected default is kept), so that the override path is part of every compile
+    env2 = dict(env)
+    env2["ORC_TARGET"] = "neon"
+    args2 = [["--depth", depth - 1, "--shard", i, "--nshards", nsh, "--deadline", int(deadline)] for i in range(nsh)]
+    res2 = vlib.run_shards(exe, args2, env2, timeout=deadline * 1.3 + 120, label="xlife/ORC_TARGET=neon")
+    for v in res2.viol:
+        v["key"] = v["key"].replace("C16|", "C16|ORC_TARGET=neon|", 1)
+        v["what"] = "with ORC_TARGET=neon in the environment: " + v.get("what", "")
+        v.setdefault("replay", {})["env"] = {"ORC_TARGET": "neon"}
     shutil.rmtree(scratch, ignore_errors=True)
     st = res.stats
     cov = {
@@ -33,19 +43,23 @@ def run(ctx):
         "oracles": ["no AddressSanitizer report, abort or signal", "every run/emulate result equals the expected vector", "invalid programs "
                     "compile to a fatal result, non-fatal results leave a code object", "live heap bytes, used code chunks, regions and "
                     "open descriptors after 4 repetitions equal those after 2"],
-        "exhaustive": not res.incomplete,
-        "notes": res.notes[:6],
+        "second_configuration": {"environment": "ORC_TARGET=neon (override naming a back end that is not executable here)", "depth": depth - 1,
+                                 "sequences": int(res2.stats.get("sequences", 0)), "operations": int(res2.stats.get("operations", 0))},
+        "exhaustive": not res.incomplete and not res2.incomplete,
+        "notes": (res.notes + res2.notes)[:6],
     }
     assumptions = ["legality as documented: no run after a fatal compile, after reset or after the code was taken; no use after free; an "
                    "executor may be kept across recompiles", "one program, one executor and one detached code object at a time",
                    "AddressSanitizer allocator statistics measure live heap bytes"]
-    return "model_checking", cov, assumptions, res.viol
+    return "model_checking", cov, assumptions, res.viol + res2.viol
 
 
 def replay(rep):
     exe = vlib.build_engine("xlife", "asan")
     scratch = vlib.scratch_dir("C16r")
-    p = subprocess.run([exe, "--replay", rep["replay"]["sequence"]], stdout=subprocess.PIPE, env=vlib.scrub_env(scratch=scratch), timeout=120)
+    env = vlib.scrub_env(scratch=scratch)
+    env.update(rep["replay"].get("env", {}))
+    p = subprocess.run([exe, "--replay", rep["replay"]["sequence"]], stdout=subprocess.PIPE, env=env, timeout=120)
     shutil.rmtree(scratch, ignore_errors=True)
     print(p.stdout.decode()[-1500:])
     return p.returncode
